@@ -30,6 +30,7 @@ r11=rows(11); n11,m11=nm(r11) if False else (len(r11),sum('missed at first' in x
 r12=rows(12); n12,m12=len(r12),sum('missed at first' in x for x in r12)
 r13=rows(13); n13,m13=len(r13),sum('missed at first' in x for x in r13)
 r15=rows(15); n15,m15=len(r15),sum('missed at first' in x for x in r15)
+r16=rows(16); n16,m16=len(r16),sum('missed at first' in x for x in r16)
 def nm(r): return len(r),sum('missed at first' in x for x in r)
 (n1,m1),(n2,m2),(n3,m3),(n4,m4),(n5,m5),(n6,m6),(n7,m7),(n8,m8),(n9,m9)=[nm(r) for r in (r1,r2,r3,r4,r5,r6,r7,r8,r9)]
 own=open('/verif/mutants/RESULTS.txt').read().strip().split('\n')
@@ -205,6 +206,16 @@ at first.
 | seed | property | detected by (scenario / clause) |
 |---|---|---|
 '''%(n15,n15-m15,m15)+'\n'.join(r15)+'''
+
+**Round 16** (%d changes; the brief of round 13 once more, with everything round 13 had found
+added to the list of what the tool is hardened against): %d detected as the checks stood, %d
+missed at first. One of the misses was of a kind no sequential exploration can see - two codec
+instances on two goroutines sharing a scratch slice at package level - and led to a supplementary
+free-running pass under the race detector for every property but C07 (which had one already).
+
+| seed | property | detected by (scenario / clause) |
+|---|---|---|
+'''%(n16,n16-m16,m16)+'\n'.join(r16)+'''
 
 What changed in response, as a rule rather than case by case: every property whose code handles a
 length, a count or an index now has a *scale* scenario next to its small-scope product, in which
